@@ -151,3 +151,6 @@
 (declare-fun RealPath (String) String)          ; filepath.EvalSymlinks: the physical path, all links resolved
 (declare-fun isLocalPath (String) Bool)         ; filepath.IsLocal
 (define-fun fromCode ((c Int)) String (str.from_code c))
+; fs.FileInfo getters as pure functions of the info value
+(declare-fun fileModTimeId (Iface) Int)   ; identity of the ModTime() value (times are opaque here)
+(define-fun imod ((a Int) (b Int)) Int (mod a b))
